@@ -6,20 +6,9 @@
    Python's [<], [<=], [>], [!=] on floats become [klt], [kle], [kgt], [kne]
    which are all [false] (resp. [true] for [!=]) as soon as one side is NaN. *)
 From Coq Require Import ZArith List Bool Arith.
-From Bingo Require Import Lib.ListExtra.
+From Bingo Require Export Lib.ListExtra Lib.Key.
 Import ListNotations.
 Open Scope Z_scope.
-
-Definition key := option Z.
-
-Definition klt (a b : key) : bool :=
-  match a, b with Some x, Some y => x <? y | _, _ => false end.
-Definition kle (a b : key) : bool :=
-  match a, b with Some x, Some y => x <=? y | _, _ => false end.
-Definition kgt (a b : key) : bool := klt b a.
-Definition kne (a b : key) : bool :=
-  match a, b with Some x, Some y => negb (x =? y) | _, _ => true end.
-Definition kisnan (a : key) : bool := match a with None => true | Some _ => false end.
 
 (* An individual offered to the hall: (object id, primary key, secondary key). *)
 Record indiv := mkI { iid : nat; ik1 : key; ik2 : key }.
